@@ -288,7 +288,8 @@ impl Builder {
     /// Create a [crate::insim::Isi] from this configuration.
     pub fn isi(&self) -> Isi {
         let udpport = match self.proto {
-            Proto::Udp => self.udp_local_address.unwrap().port(),
+            // without a local address we bind to a random port on connect; nothing to report yet
+            Proto::Udp => self.udp_local_address.map(|addr| addr.port()).unwrap_or(0),
             _ => 0,
         };
 
